@@ -77,11 +77,22 @@ func c04Check(snap *stack.Snapshot, level stack.Similarity) (merged bool, err er
 
 type c04Case struct {
 	D     DumpM
-	First int // index of the goroutine flagged First; -1: none (constructed snapshots only); -2: as parsed
+	Race  *RaceM `json:",omitempty"` // a race report instead of a goroutine dump
+	First int    // index of the goroutine flagged First; -1: none (constructed snapshots only); -2: as parsed
 }
 
 func (c *c04Case) snapshot() (*stack.Snapshot, error) {
-	s, err := parseDump(&c.D, plainOpts())
+	var s *stack.Snapshot
+	var err error
+	if c.Race != nil {
+		s, err = scanAloneOpts(c.Race.Print(), plainOpts())
+		if s == nil {
+			return nil, fmt.Errorf("generated race report does not parse: %v", err)
+		}
+		err = nil
+	} else {
+		s, err = parseDump(&c.D, plainOpts())
+	}
 	if err != nil {
 		return nil, err
 	}
@@ -136,6 +147,10 @@ var c04Rand = Check[c04Case]{
 		if thorough() && oneIn(t, 40, "huge") {
 			maxG = 3000
 		}
+		if oneIn(t, 8, "raceSnapshot") {
+			r := genAggRace(t)
+			return c04Case{Race: &r, First: -2}
+		}
 		c := c04Case{D: genAggDump(t, maxG), First: -2}
 		if oneIn(t, 3, "moveFirst") {
 			c.First = rapid.IntRange(-1, len(c.D.Gs)-1).Draw(t, "firstAt")
@@ -156,7 +171,12 @@ var c04Rand = Check[c04Case]{
 		if nt {
 			cl = append(cl, "merge_of_unequal_members")
 		}
-		return Obs{Nontrivial: nt, Digest: digestBytes(c.D.Print(), []byte{byte(c.First)}), Classes: cl, Sample: quoteShort(truncBytes(c.D.Print(), 900))}
+		in := c.D.Print()
+		if c.Race != nil {
+			cl = append(cl, "race_snapshot")
+			in = c.Race.Print()
+		}
+		return Obs{Nontrivial: nt, Digest: digestBytes(in, []byte{byte(c.First)}), Classes: cl, Sample: quoteShort(truncBytes(in, 900))}
 	},
 }
 
